@@ -5,11 +5,12 @@
 namespace
 {
 const i128 P63 = (i128)1 << 63;
-const char * TAGS10[10] = { "i8", "i16", "i32", "i64", "u8", "u16", "u32", "u64", "f32", "f64" };
+const char * TAGS10[12] = { "i8", "i16", "i32", "i64", "u8", "u16", "u32", "u64", "f32", "f64", "ll", "ull" };
+inline int int_index_of_mixed(int ti) { return ti < 8 ? ti : ti - 2; } // position in INT_TYPES of a mixed-operand index
 
 // ============================================================================================ C04
 struct IntConv { std::vector<Fn> to_fixed; std::vector<Fn> from_fixed; Fn add_fT, add_Tf; };
-IntConv IC[8];
+IntConv IC[N_INT];
 Fn UDL_INT;
 template<int TI> void j_int_to_fixed(Ctx & c, int64_t nraw, int64_t light, int64_t)
   {
@@ -43,7 +44,7 @@ template<int TI> void j_int_to_fixed(Ctx & c, int64_t nraw, int64_t light, int64
       if(r.sig) { c.signal_event((int)ci, f->entry.c_str(), 0, nraw, r.sig); continue; }
       judge(*f, ci, r.v, true);
       }
-    if(TI == 3 && n >= 0)
+    if((TI == 3 || TI == 8) && n >= 0)
       {
       CallRes r = c.call(UDL_INT.f[ci], nraw, 0);
       if(r.sig) c.signal_event((int)ci, "udl_int", nraw, 0, r.sig); else judge(UDL_INT, ci, r.v, false);
@@ -85,7 +86,7 @@ template<int TI> void j_int_roundtrip(Ctx & c, int64_t nraw, int64_t, int64_t)
   }
 void c04_init()
   {
-  for(int i = 0; i < 8; ++i)
+  for(int i = 0; i < N_INT; ++i)
     {
     std::string t = INT_TYPES[i].tag;
     IC[i].to_fixed = { resolve(("ctor_" + t).c_str()), resolve(("a2f_" + t).c_str()), resolve(("mkf_" + t).c_str()), resolve(("i2f_" + t).c_str()) };
@@ -98,10 +99,10 @@ extern Property P_C04;
 void c04_run(Ctx & c)
   {
   const auto & L = lattice();
-  for(int ti = 0; ti < 8; ++ti)
+  for(int ti = 0; ti < N_INT; ++ti)
     {
     const IntType & t = INT_TYPES[ti];
-    const Check & TF = P_C04.checks[(size_t)ti], & FT = P_C04.checks[8 + (size_t)ti], & RT = P_C04.checks[16 + (size_t)ti];
+    const Check & TF = P_C04.checks[(size_t)ti], & FT = P_C04.checks[N_INT + (size_t)ti], & RT = P_C04.checks[2 * N_INT + (size_t)ti];
     if(t.bits <= 16)
       for(int64_t v = (int64_t)t.lo + c.shard; v <= (int64_t)t.hi; v += c.nshards) { c.run_check(TF, v); c.run_check(RT, v); }
     else if(t.bits == 32)
@@ -124,7 +125,7 @@ void c04_run(Ctx & c)
     for(uint64_t i = 0; i < m; ++i) c.run_check(FT, (i & 1) ? c.rng.logu() : -c.rng.logu_pos(40));
     }
   }
-#define C04_CHECKS(T, J, doc) { T "_i8", J<0>, doc }, { T "_i16", J<1>, "" }, { T "_i32", J<2>, "" }, { T "_i64", J<3>, "" }, { T "_u8", J<4>, "" }, { T "_u16", J<5>, "" }, { T "_u32", J<6>, "" }, { T "_u64", J<7>, "" }
+#define C04_CHECKS(T, J, doc) { T "_i8", J<0>, doc }, { T "_i16", J<1>, "" }, { T "_i32", J<2>, "" }, { T "_i64", J<3>, "" }, { T "_u8", J<4>, "" }, { T "_u16", J<5>, "" }, { T "_u32", J<6>, "" }, { T "_u64", J<7>, "" }, { T "_ll", J<8>, "long long" }, { T "_ull", J<9>, "unsigned long long" }
 Property P_C04 = { "C04", c04_init, c04_run,
   { C04_CHECKS("int_to_fixed", j_int_to_fixed, "fixed_t{n}, arithmetic_to_fixed, make_fixed, integral_to_fixed, 0+n, n+0 (and _fix literal for int64); a = value of the type"),
     C04_CHECKS("fixed_to_int", j_fixed_to_int, "static_cast<T>, fixed_to_integral<T>, fixed_to_arithmetic<T>; a = finite raw"),
@@ -305,7 +306,7 @@ Registrar R_C05(&P_C05);
 
 // ============================================================================================ C16
 struct Mixed { Fn op_fT[4], op_Tf[4], eq[4]; Fn conv; bool has_eq; };
-Mixed MX[10];
+Mixed MX[12];
 Fn OP_FF[4], CAST_F64;
 const char * OPN[4] = { "add", "sub", "mul", "div" };
 inline bool both_nan_d(int64_t x, int64_t y) { return std::isnan(bits2d(x)) && std::isnan(bits2d(y)); }
@@ -313,7 +314,7 @@ template<int TI> void j_mixed(Ctx & c, int64_t a, int64_t t, int64_t)
   {
   if(!model_finite(a)) return;
   Mixed & m = MX[TI];
-  const bool is_int = TI < 8, is_dbl = TI == 9;
+  const bool is_int = TI < 8 || TI >= 10, is_dbl = TI == 9;
   for(size_t ci = 0; ci < g_cfgs.size(); ++ci)
     {
     if(is_dbl)
@@ -336,7 +337,7 @@ template<int TI> void j_mixed(Ctx & c, int64_t a, int64_t t, int64_t)
     CallRes cv = c.call(m.conv.f[ci], t, 0);
     if(cv.sig) { c.signal_event((int)ci, m.conv.entry.c_str(), t, 0, cv.sig); continue; }
     bool conv_ok = !model_isnan(cv.v);
-    i128 nv = is_int ? int_value(INT_TYPES[TI < 8 ? TI : 0], t) : 0;
+    i128 nv = is_int ? int_value(INT_TYPES[int_index_of_mixed(TI)], t) : 0;
     for(int op = 0; op < 4; ++op)
       {
       CallRes r1 = c.call(m.op_fT[op].f[ci], a, t), r2 = c.call(m.op_Tf[op].f[ci], a, t), r3 = c.call(m.eq[op].f[ci], a, t);
@@ -396,7 +397,7 @@ void c16_init()
   (void)const_scalar_count(); // resolve the literal-operand entry points before worker threads start
   for(int op = 0; op < 4; ++op) OP_FF[op] = resolve((std::string(OPN[op]) + "_ff").c_str());
   CAST_F64 = resolve("cast_f64");
-  for(int i = 0; i < 10; ++i)
+  for(int i = 0; i < 12; ++i)
     {
     std::string t = TAGS10[i];
     for(int op = 0; op < 4; ++op)
@@ -419,13 +420,13 @@ void c16_run(Ctx & c)
       i128 K = const_scalar_value(k); uint64_t m = c.share(c.n(10000, 1000000));
       for(uint64_t i = 0; i < m; ++i) c.run_check(KC, (i & 1) || K == 0 ? c.rng.logu() : clamp_finite(((c.rng.next() & 1) ? P63 : -P63) / K + c.rng.range(-4, 4)), (int64_t)k);
       } }
-  for(int ti = 0; ti < 10; ++ti)
+  for(int ti = 0; ti < 12; ++ti)
     {
-    const Check & K = P_C16.checks[(size_t)ti];
+    const Check & K = P_C16.checks[ti < 10 ? (size_t)ti : (size_t)ti + 1]; // index 10 is const_scalar
     uint64_t idx = 0;
-    if(ti < 8)
+    if(ti < 8 || ti >= 10)
       {
-      const IntType & t = INT_TYPES[ti];
+      const IntType & t = INT_TYPES[int_index_of_mixed(ti)];
       if(t.bits <= 16)
         { int64_t step = (t.bits == 16) ? (c.thorough ? 3 : 61) : 1; for(int64_t v = (int64_t)t.lo; v <= (int64_t)t.hi; v += step) for(int64_t a : S) if(c.mine(idx++)) c.run_check(K, a, v); }
       for(int64_t a : L) for(i128 v : { t.lo, t.hi, (i128)0, (i128)1, (i128)2, (i128)(t.is_signed ? -1 : 3), (i128)2147483647, (i128)2147483648ll })
@@ -469,13 +470,14 @@ Property P_C16 = { "C16", c16_init, c16_run,
   { { "mixed_i8", j_mixed<0>, "a op t, t op a, a op= t for op in + - * /; a = finite raw, b = scalar (value / IEEE bits)" }, { "mixed_i16", j_mixed<1>, "" }, { "mixed_i32", j_mixed<2>, "" }, { "mixed_i64", j_mixed<3>, "" },
     { "mixed_u8", j_mixed<4>, "" }, { "mixed_u16", j_mixed<5>, "" }, { "mixed_u32", j_mixed<6>, "" }, { "mixed_u64", j_mixed<7>, "" }, { "mixed_f32", j_mixed<8>, "" },
     { "mixed_f64", j_mixed<9>, "double operand: result bits against IEEE arithmetic on double(a) and t in written order (no compound forms exist)" },
-    { "const_scalar", j_const_scalar, "a*K, K*a, a*=K, a/K, a/=K with a literal integer K at the call site use the integer exactly; a raw, b index of K" } },
+    { "const_scalar", j_const_scalar, "a*K, K*a, a*=K, a/K, a/=K with a literal integer K at the call site use the integer exactly; a raw, b index of K" },
+    { "mixed_ll", j_mixed<10>, "long long operand (distinct from int64_t)" }, { "mixed_ull", j_mixed<11>, "unsigned long long operand" } },
   { "literal-integer-operand", "integer-exact-path", "integer-beyond-2^31", "promoted-path", "double-operand", "double-special" },
   "integer operand beyond +-(2^31-1) on the exact scalar path, or a double operand that is NaN, infinite or zero; distinct by (a,t,type)", {}, {} };
 Registrar R_C16(&P_C16);
 
 // ============================================================================================ C17
-Fn A_ADD, A_SUB, A_MUL, A_DIV, A_NEG, A_ADDSUB, A_SUBADD, A_MULI[8], A_DIVI[8];
+Fn A_ADD, A_SUB, A_MUL, A_DIV, A_NEG, A_ADDSUB, A_SUBADD, A_MULI[N_INT], A_DIVI[N_INT];
 #define CALL1(var, fn, x, y) CallRes var = c.call(fn.f[ci], x, y); if(var.sig) { c.signal_event((int)ci, fn.entry.c_str(), x, y, var.sig); continue; }
 void j_comm(Ctx & c, int64_t a, int64_t b, int64_t)
   {
@@ -539,7 +541,7 @@ void j_triple(Ctx & c, int64_t a, int64_t b, int64_t cc)
   }
 void j_scalar_laws(Ctx & c, int64_t a, int64_t nraw, int64_t ti)
   {
-  if(ti < 0 || ti > 7 || !model_finite(a)) return;
+  if(ti < 0 || ti >= N_INT || !model_finite(a)) return;
   const IntType & t = INT_TYPES[ti]; i128 n = int_value(t, nraw);
   for(size_t ci = 0; ci < g_cfgs.size(); ++ci)
     {
@@ -580,14 +582,14 @@ void j_sequence(Ctx & c, int64_t pseed, int64_t len, int64_t)
         case 1: operand = r.logu(r.below(2) ? 62 : 40); res = c.call(A_SUB.f[ci], v, operand); shadow -= operand; prog += " -" + i2s(operand); break;
         case 2:
           { // * n with n carried by a random integral type (promotion paths differ per type)
-          int ti = (int)r.below(8); const IntType & t = INT_TYPES[ti];
+          int ti = (int)r.below(N_INT); const IntType & t = INT_TYPES[ti];
           i128 n = r.range(-9, 9) * (r.below(4) == 0 ? 100000 : 1); if(r.below(16) == 0) n = int_value(t, random_of_type(r, t));
           if(n < t.lo || n > t.hi) n = t.is_signed ? (i128)-3 : (i128)3;
           operand = (int64_t)(uint64_t)(u128)n; res = c.call(A_MULI[ti].f[ci], v, operand); shadow *= n; prog += std::string(" *(") + t.tag + ")" + i128s(n); break;
           }
         case 3:
           {
-          int ti = (int)r.below(8); const IntType & t = INT_TYPES[ti];
+          int ti = (int)r.below(N_INT); const IntType & t = INT_TYPES[ti];
           i128 n = r.range(1, 9) * ((r.next() & 1) ? -1 : 1); if(r.below(16) == 0) n = int_value(t, random_of_type(r, t));
           if(n < t.lo || n > t.hi || n == 0) n = 3;
           operand = (int64_t)(uint64_t)(u128)n; res = c.call(A_DIVI[ti].f[ci], v, operand); shadow = shadow / n; prog += std::string(" /(") + t.tag + ")" + i128s(n); break;
@@ -613,7 +615,7 @@ void c17_init()
   {
   A_ADD = resolve("add_ff"); A_SUB = resolve("sub_ff"); A_MUL = resolve("mul_ff"); A_DIV = resolve("div_ff"); A_NEG = resolve("neg");
   A_ADDSUB = resolve("add_sub_back"); A_SUBADD = resolve("sub_add_back");
-  for(int i = 0; i < 8; ++i) { std::string t = INT_TYPES[i].tag; A_MULI[i] = resolve(("mul_f" + t).c_str()); A_DIVI[i] = resolve(("div_f" + t).c_str()); }
+  for(int i = 0; i < N_INT; ++i) { std::string t = INT_TYPES[i].tag; A_MULI[i] = resolve(("mul_f" + t).c_str()); A_DIVI[i] = resolve(("div_f" + t).c_str()); }
   }
 extern Property P_C17;
 void c17_run(Ctx & c)
@@ -631,7 +633,7 @@ void c17_run(Ctx & c)
     c.run_check(COMM, a, b); c.run_check(TRI, a, b, d); c.run_check(TRI, a, d, b);
     c.run_check(UNIT, c.rng.logu(47));
     }
-  for(int ti = 0; ti < 8; ++ti)
+  for(int ti = 0; ti < N_INT; ++ti)
     {
     const IntType & t = INT_TYPES[ti];
     uint64_t m = c.share(c.n(40000, 4000000));
@@ -659,7 +661,7 @@ Property P_C17 = { "C17", c17_init, c17_run,
 Registrar R_C17(&P_C17);
 
 // ============================================================================================ C20
-Fn A2R[8]; Fn SINA[10], COSA[10], TANA[10]; // carriers: 8 integer types, f32 (index 8), fixed (index 9)
+Fn A2R[N_INT]; Fn SINA[12], COSA[12], TANA[12]; // carriers: 8 integer types, f32 (index 8), fixed (index 9)
 template<int TI> void j_a2r(Ctx & c, int64_t draw, int64_t, int64_t)
   {
   const IntType & t = INT_TYPES[TI]; i128 d = int_value(t, draw);
@@ -693,10 +695,10 @@ void j_angle_fn(Ctx & c, int64_t d, int64_t, int64_t)
   for(size_t ci = 0; ci < g_cfgs.size(); ++ci)
     {
     int64_t ref[3] = { 0, 0, 0 }; bool have = false;
-    for(int k = 0; k < 10; ++k)
+    for(int k = 0; k < 12; ++k)
       {
       int64_t arg;
-      if(k < 8) { const IntType & t = INT_TYPES[k]; if((i128)d < t.lo || (i128)d > t.hi) continue; arg = d; }
+      if(k < 8 || k >= 10) { const IntType & t = INT_TYPES[k < 8 ? k : k - 2]; if((i128)d < t.lo || (i128)d > t.hi) continue; arg = d; }
       else if(k == 8) arg = f2bits((float)d);
       else arg = d * 65536;
       CallRes a = c.call(SINA[k].f[ci], arg, 0), b = c.call(COSA[k].f[ci], arg, 0), t = c.call(TANA[k].f[ci], arg, 0);
@@ -717,16 +719,16 @@ void j_angle_fn(Ctx & c, int64_t d, int64_t, int64_t)
   }
 void c20_init()
   {
-  for(int i = 0; i < 8; ++i) A2R[i] = resolve((std::string("a2r_") + INT_TYPES[i].tag).c_str());
-  const char * car[10] = { "i8", "i16", "i32", "i64", "u8", "u16", "u32", "u64", "f32", "fix" };
-  for(int i = 0; i < 10; ++i) { std::string t = car[i]; SINA[i] = resolve(("sin_angle_" + t).c_str()); COSA[i] = resolve(("cos_angle_" + t).c_str()); TANA[i] = resolve(("tan_angle_" + t).c_str()); }
+  for(int i = 0; i < N_INT; ++i) A2R[i] = resolve((std::string("a2r_") + INT_TYPES[i].tag).c_str());
+  const char * car[12] = { "i8", "i16", "i32", "i64", "u8", "u16", "u32", "u64", "f32", "fix", "ll", "ull" };
+  for(int i = 0; i < 12; ++i) { std::string t = car[i]; SINA[i] = resolve(("sin_angle_" + t).c_str()); COSA[i] = resolve(("cos_angle_" + t).c_str()); TANA[i] = resolve(("tan_angle_" + t).c_str()); }
   }
 extern Property P_C20;
 void c20_run(Ctx & c)
   {
-  for(int ti = 0; ti < 8; ++ti)
+  for(int ti = 0; ti < N_INT; ++ti)
     {
-    const IntType & t = INT_TYPES[ti]; const Check & K = P_C20.checks[(size_t)ti];
+    const IntType & t = INT_TYPES[ti]; const Check & K = P_C20.checks[ti < 8 ? (size_t)ti : (size_t)ti + 1]; // index 8 is angle_fn
     if(t.bits <= 16) for(int64_t v = (int64_t)t.lo + c.shard; v <= (int64_t)t.hi; v += c.nshards) c.run_check(K, v);
     else
       {
@@ -741,7 +743,8 @@ void c20_run(Ctx & c)
 Property P_C20 = { "C20", c20_init, c20_run,
   { { "a2r_i8", j_a2r<0>, "angle_to_radians<T>(d); a = value of the type" }, { "a2r_i16", j_a2r<1>, "" }, { "a2r_i32", j_a2r<2>, "" }, { "a2r_i64", j_a2r<3>, "" },
     { "a2r_u8", j_a2r<4>, "" }, { "a2r_u16", j_a2r<5>, "" }, { "a2r_u32", j_a2r<6>, "" }, { "a2r_u64", j_a2r<7>, "" },
-    { "angle_fn", j_angle_fn, "sin_angle/cos_angle/tan_angle(d) for every carrier type that can hold d; a = d in [-360,360]" } },
+    { "angle_fn", j_angle_fn, "sin_angle/cos_angle/tan_angle(d) for every carrier type that can hold d; a = d in [-360,360]" },
+    { "a2r_ll", j_a2r<8>, "long long" }, { "a2r_ull", j_a2r<9>, "unsigned long long" } },
   { "angle-in-[0,360]", "angle-outside", "angle>127-in-8bit-carrier", "degree-argument" },
   "d in [0,360] or adjacent (-1, 361) for angle_to_radians; every d in [-360,360] for the *_angle functions; distinct by (d,type)",
   { "every value of the 8/16-bit types for angle_to_radians", "every d in [-360,360] x every carrier type" },
